@@ -612,7 +612,11 @@ class Fxp():
             # n_int = max( np.ceil(np.log2(np.max(np.abs( val*(1 << n_frac) + 0.5 )))).astype(int_dtype) - n_frac, 0)
             
             val_max, val_min = np.max(val), np.min(val)
-            if isinstance(val_max, (int, np.integer)) and isinstance(val_min, (int, np.integer)):
+            if n_frac < 0:
+                # (a negative fractional size drops integer bits; toward zero, as the default rounding does)
+                val_max = int(abs(val_max) // (1 << -n_frac)) * (1 if val_max >= 0 else -1)
+                val_min = int(abs(val_min) // (1 << -n_frac)) * (1 if val_min >= 0 else -1)
+            elif isinstance(val_max, (int, np.integer)) and isinstance(val_min, (int, np.integer)):
                 # (integers are scaled as python integers: 64 bits integers would overflow)
                 val_max = int(val_max) * (1 << n_frac)
                 val_min = int(val_min) * (1 << n_frac)
